@@ -46,6 +46,13 @@ CLAIMED = {
                 note="Filters are used through named contracts (result = function of all arguments; meaning: C10). get_negative_objects (FN/TN lists) is not "
                      "under contract: the 'each critical ground truth exactly once' clause rests on the native harness (bounded) only. Metric branches of "
                      "evaluate_frame are switched off in the verified configuration (pass/fail only).", ref="5/C03"),
+    "C04": dict(text="The numeric core of Ap is verified for all list lengths: precision/recall from the cumulative TP weights (p_k = T_k/(k+1), r_k = T_k/G), the "
+                     "interpolation (every curve point is a rank's (precision, recall) and dominates the precision of every higher rank; closing point at recall 0), "
+                     "and the area sum (AP equals the sum over the interpolated curve, lies in [0,1] when precision is in [0,1] and recall non-decreasing in [0,1], "
+                     "is 0 when no estimate is correct).",
+                note="Not under contract in this build: Ap.__init__ (flatten + stable sort by confidence), _calculate_tp_fp (np.cumsum of TP weights), Map (mean), "
+                     "'AP = 1 for a perfect ranking', 'APH <= AP'; those clauses are covered only by the native harness (exhaustive rankings up to length 6, "
+                     "bounded). Floats as reals.", ref="5/C04"),
 }
 NA_REASON = "check not built yet in this session (planned in DESIGN.md section 5); not claimed"
 ALL = [f"C{n:02d}" for n in range(1, 21)]
